@@ -1,3 +1,4 @@
+import NgVerif.Proofs.Source
 import NgVerif.Proofs.MiniShard
 import NgVerif.Proofs.Shard
 import NgVerif.Proofs.ShardImpl
@@ -121,5 +122,13 @@ theorem disk_buffer_equals_memory_buffer (hist : List (List Nat × Ev)) :
     (runAdds add ⟨[], 0⟩ hist).file = memory hist ∧
     (runAdds add ⟨[], 0⟩ hist).len = (memory hist).length := by
   simpa using runAdds_spec ⟨[], 0⟩ rfl hist
+
+/-- TRANSLATED SOURCE. `MiniShard.next_cmc` as it stands in /repo's source (translated on every run) is the
+    identifier enumeration `nextId` the order-independence theorems are instantiated with, given that the
+    preshift mask is `2^p - 1` -/
+theorem source_next_cmc_is_the_model (m s p masked n : Nat) :
+    Generated.Src.nextCmc (appended := n) (preshift_bits := p) (shard_bits := s) (minishard_bits := m)
+      (masked_bits := masked) (preshift_mask := 2 ^ p - 1) = Shard.nextId m s p masked n :=
+  Source.nextCmc_eq_model m s p masked n
 
 end NgVerif.Props.C05
